@@ -565,6 +565,22 @@ Definition drop_excluded {A} (excluded : list string) (fs : list (string * A)) :
 Definition eq_sees_all_members (excluded : list string) (M : mtables) : bool :=
   forallb (fun k => forallb (fun m => negb (mem (rename_any (ms_name m)) excluded)) (mc_specs k)) M.
 
+(* the calling conventions and class-level state the model assumes (translators/tr_supersig.py reads the real ones):
+   add(self, obj=None, hint=None, force=False, validate=True, **kwargs),
+   component_factory(cls, component_type, validate=True, **kwargs); parameters as (name, source text of the default) *)
+Definition modelled_add_signature : list (string * string) :=
+  [("self", ""); ("obj", "None"); ("hint", "None"); ("force", "False"); ("validate", "True"); ("**kwargs", "")].
+Definition modelled_factory_signature : list (string * string) :=
+  [("cls", ""); ("component_type", ""); ("validate", "True"); ("**kwargs", "")].
+(* class attributes created at run time: the _get_members cache (keyed by class name) and the hierarchy cache *)
+Definition modelled_class_attrs : list string := ["__all_members_"; "__nml_hier"].
+Fixpoint sig_eqb (a b : list (string * string)) : bool :=
+  match a, b with
+  | [], [] => true
+  | (n, d) :: r, (m, e) :: q => String.eqb n m && String.eqb d e && sig_eqb r q
+  | _, _ => false
+  end.
+
 (* one member of one class against the schema: type and list nature as declared (effective occurrence), the
    required flag as the declaration itself says (use / own minOccurs), which outside an xs:choice is also the
    effective requirement *)
